@@ -936,7 +936,12 @@ func (g *Gen) dbName() string {
 // and default write lists, two or three peers with different identities.
 func genAddress(r *rand.Rand, id string, size int, total int) []string {
 	g := &Gen{r: r}
-	g.add("scn %s kind=none acl=* peers=", id)
+	// in half of the scenarios every peer keeps ONE options value and passes it to all its calls
+	if g.pick(2) == 0 {
+		g.add("scn %s kind=none acl=* peers= reuse=1", id)
+	} else {
+		g.add("scn %s kind=none acl=* peers=", id)
+	}
 	kinds := []string{"kv", "log", "doc"}
 	acls := []string{"default", "0", "1", "0,1", "1,0", "*", "2"}
 	// a victim database so that @r1@ exists
@@ -1006,7 +1011,12 @@ func genSnapshot(r *rand.Rand, id string, size int, total int) []string {
 		}
 	}
 	g.add("obs %d", p)
-	g.add("snapsave %d", p)
+	if g.pick(3) == 0 {
+		// the log grows while the snapshot is being written
+		g.add("snapsaverace %d %d", p, 1+g.pick(4))
+	} else {
+		g.add("snapsave %d", p)
+	}
 	g.add("restartsnap %d", p)
 	g.add("obs %d", p)
 	return g.lines
